@@ -54,6 +54,8 @@ def probe_term(p):
                  bool(p[8]))
     if p[0] == "scalar":
         return C("PScalar", p[1], C(OUT[p[2]]))
+    if p[0] == "inst":
+        return C("PInst", p[1], bool(p[2]), bool(p[3]))
     return C("PReadOnly", p[1], C(OUT[p[2]]))
 
 
@@ -73,14 +75,21 @@ def to_term(case, ob):
         cp, tr = meta[d["k"]]
         m = cmode(cp if cp in ("ref", "shallow", "deep") else None)
         cls.append((d["k"], C("Build_tdef", ttype(d["type"]), bool(tr), C("Some", m) if m is not None else None)))
+    extra = []
+    if case.get("graph"):
+        # the Instance-graph fixture adds two non-transient traits to the class: one stand-in in the model's
+        # class (never assigned, reads its default on both objects) so that `copies_all` sees them
+        cls.append((999, C("Build_tdef", C("TAny"), False, None)))
+        extra = [(999, C("Sc", 0))]
     hs = []
     for h in case["ops"]:
         if h[0] == "assign":
             hs.append(C("HAssign", h[1], raw_term(h[2])))
         else:
             hs.append(C("HAppend", h[1], [Nat(i) for i in h[2]], raw_term(h[3])))
-    cobs = C("Build_cobs", bool(ob["same_class"]), [(k, dump_term(v)) for k, v in ob["orig"]],
-             [(k, dump_term(v)) for k, v in ob["copy"]], [probe_term(p) for p in ob["probes"]])
+    cobs = C("Build_cobs", bool(ob["same_class"]), [(k, dump_term(v)) for k, v in ob["orig"]] + extra,
+             ([(k, dump_term(v)) for k, v in ob["copy"]] + extra) if not ob.get("copy_raised") else [],
+             [probe_term(p) for p in ob["probes"]])
     return (cls, hs, op_term(case["op"]), cobs)
 
 
@@ -121,7 +130,7 @@ def key_fn(case, ob, step, clause):
             if (cid & oid) and demanded:
                 kinds.add("%s/copy-metadata-%s" % (_tname(d["type"]).split("(")[0], d["copy"]))
         detail = "/" + "+".join(sorted(kinds))
-    if clause == 3 and all(t for _, _, t in ob["meta"]):
+    if clause == 3 and all(t for _, _, t in ob["meta"]) and not case.get("graph"):
         detail = "/all-traits-transient"
     return "%s/%s%s" % (CLAUSE.get(clause, clause), mode, detail)
 
@@ -231,7 +240,9 @@ def gen_case(rnd, ctx, maxlen):
     op = rnd.choice([["pickle", rnd.randint(0, 5)], ["pickle", rnd.randint(0, 5)], ["deepcopy"], ["deepcopy"],
                      ["clone", None], ["clone", "shallow"], ["clone", "deep"], ["clone", "deep"]])
     ctx.count("copy:" + op[0] + ("-%s" % op[1] if op[0] == "clone" else ""))
-    return dict(cls=cls, ops=ops, op=op)
+    graph = rnd.random() < 0.4
+    ctx.count("instance-graph:" + ("yes" if graph else "no"))
+    return dict(cls=cls, ops=ops, op=op, graph=graph)
 
 
 def corpus():
@@ -251,7 +262,7 @@ def corpus():
     cs = []
     for op in ([["pickle", p] for p in range(6)] + [["deepcopy"], ["clone", None], ["clone", "shallow"],
                                                       ["clone", "deep"]]):
-        cs.append(dict(cls=cls, ops=ops, op=op))
+        cs.append(dict(cls=cls, ops=ops, op=op, graph=True))
         cs.append(dict(cls=cls, ops=[], op=op))
     # triggers of the listed findings: a class whose traits are all transient, under every non-pickle mode
     tcls = [dict(k=0, type="int", transient=True, copy=None), dict(k=1, type=L, transient=True, copy=None)]
